@@ -713,6 +713,10 @@ func child(mode string, in json.RawMessage) any {
 		var j concJob
 		json.Unmarshal(in, &j)
 		return doConc(j)
+	case "concdiff":
+		var j cdJob
+		json.Unmarshal(in, &j)
+		return doConcDiff(j)
 	case "concsp":
 		var j spJob
 		json.Unmarshal(in, &j)
